@@ -19,10 +19,17 @@ let method_of code mode p1 p2 p3 =
 (* field configuration: mean, sill, normalizer code (0 default, 1 LogNormal, 2 BoxCox lmbda), lmbda, trend (option as 0/1 rows) *)
 let cfg_of mean sill ncode lmbda has_trend trend =
   let l = gf lmbda in
+  (* Normalizer.normalize / denormalize = the formula inside the open range (lo, hi), NaN outside
+     (Normalizer._check_input; only applied when one bound is finite) *)
+  let inside lo hi f x = if x > lo && x < hi then f x else Float.nan in
+  let close0 = Float.abs l <= 1e-8 in
   let (dflt, nf, ni) = match int_of_nat (gn ncode) with
     | 0 -> (true, (fun x -> x), (fun x -> x))
-    | 1 -> (false, Float.log, Float.exp)
-    | _ -> (false, boxcox_normalize o l, boxcox_denormalize o l) in
+    | 1 -> (false, inside 0.0 Float.infinity Float.log, Float.exp)
+    | _ -> (false, inside 0.0 Float.infinity (boxcox_normalize o l),
+            (if close0 then boxcox_denormalize o l
+             else if l < 0.0 then inside Float.neg_infinity (-. (1.0 /. l)) (boxcox_denormalize o l)
+             else inside (-. (1.0 /. l)) Float.infinity (boxcox_denormalize o l))) in
   { c_mean = gf mean; c_sill = gf sill; c_norm_default = dflt; c_nf = nf; c_ni = ni;
     c_trend = (if gb has_trend then Some (gv trend) else None) }
 let store_of s = match int_of_z (gz s) with -1 -> StFalse | -2 -> StTrue | n -> StName (z_of_int n)
